@@ -226,6 +226,39 @@ def run_differential(unit) -> UnitResult:
         except Exception:  # noqa
             update_failed = True
             r.count("failed_weight_updates")
+        # another failing operation: a node of a class that exists but was not supplied to this grammar is requested (as a
+        # user-written refinement calling rec(Unlisted) would); it is refused and the grammar stays as it is
+        if len(ctx.spec["prods"]) >= 2 and not ctx.spec.get("named"):
+            from geneticengine.grammar.grammar import extract_grammar
+            from geneticengine.representations.tree.treebased import random_node
+            from mc.explorer import ExhaustiveSource as _ES
+
+            drop = ctx.spec["prods"][-1][0]
+            # (on classes of their own: production weights live on the classes, so extracting a second grammar over the
+            # same classes would legitimately re-normalise what the first one reports)
+            b_sub = G.build(ctx.spec)
+            try:
+                try:
+                    g_sub = extract_grammar([c for c in b_sub.considered if c.__name__ != drop], b_sub.start)
+                except Exception:  # noqa
+                    g_sub = None
+                if g_sub is not None and b_sub.classes[drop] not in g_sub.all_nodes:
+                    sub0 = grammar_snapshot(g_sub)
+                    try:
+                        random_node(_ES((), strict=False), g_sub, b_sub.classes[drop],
+                                    make_rep("tree", g_sub, _ES((), strict=False), g_sub.get_min_tree_depth() + 2).decider)
+                        refused = False
+                    except Exception:  # noqa
+                        refused = True
+                    r.count("requests_for_an_unsupplied_class")
+                    sub1 = grammar_snapshot(g_sub)
+                    if sub0 != sub1:
+                        r.add_violation(Violation(PROP, "random_node-unsupplied-class", "grammar-changed",
+                                                  {"field": diff_snap(sub0, sub1).split(":")[0][:40], "refused": refused},
+                                                  {"unit": P.clean_unit(unit), "dropped": drop},
+                                                  f"{ctx.spec['name']} without {drop}: asking for a {drop} node changed the grammar: {diff_snap(sub0, sub1)[:300]}"))
+            finally:
+                b_sub.cleanup()
         # the exploration above IS the history (it includes every failing / backtracking path); explore again
         if update_failed or not g.alternatives:
             after, _, trunc2 = reach()
